@@ -6,6 +6,7 @@ import (
 	"fmt"
 	"math"
 	"sort"
+	"strings"
 	"time"
 
 	"github.com/paulmach/orb"
@@ -729,140 +730,197 @@ func RunCover(t *core.T) {
 		t.Violate("cover-error", "tilecover.Geometry", "", "cover of a valid %s at zoom %d failed: %v\n  %v", sh.class, z, err, sh.geom)
 		return
 	}
-	covered := func(x, y uint32) bool { return set[maptile.Tile{X: x, Y: y, Z: z}] }
-	tiles := sortedTiles(set, false)
-	for _, tl := range tiles {
-		if tl.Z != z || !set[tl] {
-			t.Violate("cover-tiles", "tilecover.Geometry", "", "cover holds %v (value %v) at zoom %d", tl, set[tl], z)
-			return
-		}
-	}
-	t.State(fmt.Sprintf("cover/%d/%s/%d", z, sh.class, bucket(len(tiles))))
-	checks := 0
-
-	// points: the cover contains the point's tile
-	for _, p := range sh.pts {
-		if x, y, ok := tileOf(p); ok {
-			checks++
-			if !covered(x, y) {
-				t.Violate("cover-point", "tilecover.Geometry", "", "point %v (fraction %v) lies in tile %d/%d/%d which is not in the cover %v", sh.geom, p, z, x, y, head(tiles, 20))
-				return
+	verify := func(set maptile.Set) bool {
+		covered := func(x, y uint32) bool { return set[maptile.Tile{X: x, Y: y, Z: z}] }
+		tiles := sortedTiles(set, false)
+		for _, tl := range tiles {
+			if tl.Z != z || !set[tl] {
+				t.Violate("cover-tiles", "tilecover.Geometry", "", "cover holds %v (value %v) at zoom %d", tl, set[tl], z)
+				return false
 			}
 		}
-	}
+		t.State(fmt.Sprintf("cover/%d/%s/%d", z, sh.class, bucket(len(tiles))))
+		checks := 0
 
-	// every segment: the midpoint of every stretch between two grid crossings lies in a covered tile
-	var segs [][2]pt
-	addPath := func(ps []pt) {
-		for i := 0; i+1 < len(ps); i++ {
-			segs = append(segs, [2]pt{ps[i], ps[i+1]})
-		}
-	}
-	for _, l := range sh.lines {
-		addPath(l)
-	}
-	for _, poly := range sh.rings {
-		for _, r := range poly {
-			addPath(r)
-		}
-	}
-	for _, sg := range segs {
-		ts := crossings(sg[0], sg[1])
-		for i := 0; i+1 < len(ts); i++ {
-			if ts[i+1]-ts[i] <= 0 {
-				continue
-			}
-			m := (ts[i] + ts[i+1]) / 2
-			p := pt{sg[0][0] + m*(sg[1][0]-sg[0][0]), sg[0][1] + m*(sg[1][1]-sg[0][1])}
+		// points: the cover contains the point's tile
+		for _, p := range sh.pts {
 			if x, y, ok := tileOf(p); ok {
 				checks++
 				if !covered(x, y) {
-					t.Violate("cover-missing-tile", "tilecover.Geometry", sh.class[:4], "%s at zoom %d: the segment %v-%v passes through tile %d/%d (at %v) which is not in the cover %v\n  %v", sh.class, z, sg[0], sg[1], x, y, p, head(tiles, 30), sh.geom)
-					return
+					t.Violate("cover-point", "tilecover.Geometry", "", "point %v (fraction %v) lies in tile %d/%d/%d which is not in the cover %v", sh.geom, p, z, x, y, head(tiles, 20))
+					return false
 				}
 			}
 		}
-	}
 
-	// polygons: samples strictly inside must be covered; no covered tile outside the tile-space bound
-	if len(sh.rings) > 0 {
-		minx, miny, maxx, maxy := math.Inf(1), math.Inf(1), math.Inf(-1), math.Inf(-1)
+		// every segment: the midpoint of every stretch between two grid crossings lies in a covered tile
+		var segs [][2]pt
+		addPath := func(ps []pt) {
+			for i := 0; i+1 < len(ps); i++ {
+				segs = append(segs, [2]pt{ps[i], ps[i+1]})
+			}
+		}
+		for _, l := range sh.lines {
+			addPath(l)
+		}
+		for _, poly := range sh.rings {
+			for _, r := range poly {
+				addPath(r)
+			}
+		}
 		for _, sg := range segs {
-			for _, p := range sg {
+			ts := crossings(sg[0], sg[1])
+			for i := 0; i+1 < len(ts); i++ {
+				if ts[i+1]-ts[i] <= 0 {
+					continue
+				}
+				m := (ts[i] + ts[i+1]) / 2
+				p := pt{sg[0][0] + m*(sg[1][0]-sg[0][0]), sg[0][1] + m*(sg[1][1]-sg[0][1])}
+				if x, y, ok := tileOf(p); ok {
+					checks++
+					if !covered(x, y) {
+						t.Violate("cover-missing-tile", "tilecover.Geometry", sh.class[:4], "%s at zoom %d: the segment %v-%v passes through tile %d/%d (at %v) which is not in the cover %v\n  %v", sh.class, z, sg[0], sg[1], x, y, p, head(tiles, 30), sh.geom)
+						return false
+					}
+				}
+			}
+		}
+
+		// polygons: samples strictly inside must be covered; no covered tile outside the tile-space bound
+		if len(sh.rings) > 0 {
+			minx, miny, maxx, maxy := math.Inf(1), math.Inf(1), math.Inf(-1), math.Inf(-1)
+			for _, sg := range segs {
+				for _, p := range sg {
+					minx, miny = math.Min(minx, p[0]), math.Min(miny, p[1])
+					maxx, maxy = math.Max(maxx, p[0]), math.Max(maxy, p[1])
+				}
+			}
+			for _, p := range sh.pts {
 				minx, miny = math.Min(minx, p[0]), math.Min(miny, p[1])
 				maxx, maxy = math.Max(maxx, p[0]), math.Max(maxy, p[1])
 			}
-		}
-		for _, p := range sh.pts {
-			minx, miny = math.Min(minx, p[0]), math.Min(miny, p[1])
-			maxx, maxy = math.Max(maxx, p[0]), math.Max(maxy, p[1])
-		}
-		for _, tl := range tiles {
-			if float64(tl.X)+1 < minx-guard || float64(tl.X) > maxx+guard || float64(tl.Y)+1 < miny-guard || float64(tl.Y) > maxy+guard {
-				t.Violate("cover-outside-bound", "tilecover.Geometry", "", "%s at zoom %d: covered tile %v lies outside the shape's tile-space bound [%g,%g]x[%g,%g]", sh.class, z, tl, minx, maxx, miny, maxy)
-				return
+			for _, tl := range tiles {
+				if float64(tl.X)+1 < minx-guard || float64(tl.X) > maxx+guard || float64(tl.Y)+1 < miny-guard || float64(tl.Y) > maxy+guard {
+					t.Violate("cover-outside-bound", "tilecover.Geometry", "", "%s at zoom %d: covered tile %v lies outside the shape's tile-space bound [%g,%g]x[%g,%g]", sh.class, z, tl, minx, maxx, miny, maxy)
+					return false
+				}
 			}
-		}
-		for _, poly := range sh.rings {
-			bx0, by0, bx1, by1 := math.Inf(1), math.Inf(1), math.Inf(-1), math.Inf(-1)
-			for _, p := range poly[0] {
-				bx0, by0 = math.Min(bx0, p[0]), math.Min(by0, p[1])
-				bx1, by1 = math.Max(bx1, p[0]), math.Max(by1, p[1])
-			}
-			nx, ny := math.Floor(bx1)-math.Floor(bx0)+1, math.Floor(by1)-math.Floor(by0)+1
-			if nx*ny > 6000 {
-				continue
-			}
-			for x := math.Floor(bx0); x <= math.Floor(bx1); x++ {
-				for y := math.Floor(by0); y <= math.Floor(by1); y++ {
-					for k := 0; k < 3; k++ {
-						var p pt
-						if k == 0 {
-							p = pt{x + 0.5, y + 0.5}
-						} else {
-							p = pt{x + 0.001 + 0.998*float64(s.Intn(1000, "sx"))/1000, y + 0.001 + 0.998*float64(s.Intn(1000, "sy"))/1000}
-						}
-						in, ok := insidePolygon(p, poly)
-						if !ok || !in {
-							continue
-						}
-						if tx, ty, ok := tileOf(p); ok {
-							checks++
-							if !covered(tx, ty) {
-								t.Violate("cover-missing-interior", "tilecover.Geometry", "", "%s at zoom %d: %v is inside the polygon but its tile %d/%d is not in the cover %v\n  %v", sh.class, z, p, tx, ty, head(tiles, 30), sh.geom)
-								return
+			for _, poly := range sh.rings {
+				bx0, by0, bx1, by1 := math.Inf(1), math.Inf(1), math.Inf(-1), math.Inf(-1)
+				for _, p := range poly[0] {
+					bx0, by0 = math.Min(bx0, p[0]), math.Min(by0, p[1])
+					bx1, by1 = math.Max(bx1, p[0]), math.Max(by1, p[1])
+				}
+				nx, ny := math.Floor(bx1)-math.Floor(bx0)+1, math.Floor(by1)-math.Floor(by0)+1
+				if nx*ny > 6000 {
+					continue
+				}
+				for x := math.Floor(bx0); x <= math.Floor(bx1); x++ {
+					for y := math.Floor(by0); y <= math.Floor(by1); y++ {
+						for k := 0; k < 3; k++ {
+							var p pt
+							if k == 0 {
+								p = pt{x + 0.5, y + 0.5}
+							} else {
+								p = pt{x + 0.001 + 0.998*float64(s.Intn(1000, "sx"))/1000, y + 0.001 + 0.998*float64(s.Intn(1000, "sy"))/1000}
+							}
+							in, ok := insidePolygon(p, poly)
+							if !ok || !in {
+								continue
+							}
+							if tx, ty, ok := tileOf(p); ok {
+								checks++
+								if !covered(tx, ty) {
+									t.Violate("cover-missing-interior", "tilecover.Geometry", "", "%s at zoom %d: %v is inside the polygon but its tile %d/%d is not in the cover %v\n  %v", sh.class, z, p, tx, ty, head(tiles, 30), sh.geom)
+									return false
+								}
 							}
 						}
 					}
 				}
 			}
-		}
-	} else if len(segs) > 0 {
-		// lines: exactly the tiles the image passes through: every covered tile must be touched by some segment
-		for _, tl := range tiles {
-			near := false
-			for _, p := range sh.pts { // a point member of a collection accounts for its tile
-				if p[0] >= float64(tl.X)-guard && p[0] <= float64(tl.X)+1+guard && p[1] >= float64(tl.Y)-guard && p[1] <= float64(tl.Y)+1+guard {
-					near = true
+		} else if len(segs) > 0 {
+			// lines: exactly the tiles the image passes through: every covered tile must be touched by some segment
+			for _, tl := range tiles {
+				near := false
+				for _, p := range sh.pts { // a point member of a collection accounts for its tile
+					if p[0] >= float64(tl.X)-guard && p[0] <= float64(tl.X)+1+guard && p[1] >= float64(tl.Y)-guard && p[1] <= float64(tl.Y)+1+guard {
+						near = true
+					}
+				}
+				for _, sg := range segs {
+					if segNearRect(sg[0], sg[1], float64(tl.X), float64(tl.Y), guard) {
+						near = true
+						break
+					}
+				}
+				checks++
+				if !near {
+					t.Violate("cover-extra-tile", "tilecover.Geometry", "", "%s at zoom %d: covered tile %v is not touched by any segment\n  %v", sh.class, z, tl, sh.geom)
+					return false
 				}
 			}
-			for _, sg := range segs {
-				if segNearRect(sg[0], sg[1], float64(tl.X), float64(tl.Y), guard) {
-					near = true
-					break
-				}
-			}
-			checks++
-			if !near {
-				t.Violate("cover-extra-tile", "tilecover.Geometry", "", "%s at zoom %d: covered tile %v is not touched by any segment\n  %v", sh.class, z, tl, sh.geom)
-				return
-			}
+		}
+		for i := 0; i < checks && i < 3; i++ {
+			t.Op()
+		}
+		t.ProbeN("geometric_checks", int64(checks))
+		return true
+	}
+	if !verify(set) {
+		return
+	}
+
+	// A cover belongs to the caller (MergeUp consumes the set it is given): computing
+	// further covers must not change it, and emptying it must not change theirs.
+	if t.Failed() || !s.Chance(1, 3, "again") {
+		return
+	}
+	was := copySet(set)
+	var second, other maptile.Set
+	if t.Guard("tilecover.Geometry", func() {
+		second, err = tilecover.Geometry(sh.geom, z)
+		if z > 0 {
+			other, _ = tilecover.Geometry(sh.geom, z-1)
+		}
+	}) {
+		return
+	}
+	if !sameTiles(sortedTiles(set, false), sortedTiles(was, false)) {
+		t.Violate("result-stable", "tilecover.Geometry", "", "%s at zoom %d: the cover returned first changed while later covers were computed: now %v, was %v", sh.class, z, head(sortedTiles(set, false), 20), head(sortedTiles(was, false), 20))
+		return
+	}
+	was2 := copySet(second)
+	for tl := range set {
+		delete(set, tl)
+	}
+	set[maptile.Tile{X: 0, Y: 0, Z: z}] = false
+	for tl := range other {
+		delete(other, tl)
+	}
+	if !sameTiles(sortedTiles(second, false), sortedTiles(was2, false)) {
+		t.Violate("result-aliased", "tilecover.Geometry", "", "%s at zoom %d: emptying one returned cover changed another: now %v, was %v", sh.class, z, head(sortedTiles(second, false), 20), head(sortedTiles(was2, false), 20))
+		return
+	}
+	if strings.HasPrefix(sh.class, "point/") || strings.HasPrefix(sh.class, "multipoint/") || strings.Contains(sh.class, "line/") {
+		// exact classes: the cover is a function of the geometry
+		if !sameTiles(sortedTiles(second, false), sortedTiles(was, false)) {
+			t.Violate("cover-repeatable", "tilecover.Geometry", "", "%s at zoom %d: the same geometry was covered by %v first and by %v the second time", sh.class, z, head(sortedTiles(was, false), 20), head(sortedTiles(second, false), 20))
+			return
 		}
 	}
-	for i := 0; i < checks && i < 3; i++ {
-		t.Op()
+	var third maptile.Set
+	if t.Guard("tilecover.Geometry", func() { third, err = tilecover.Geometry(sh.geom, z) }) {
+		return
 	}
-	t.ProbeN("geometric_checks", int64(checks))
+	if strings.HasPrefix(sh.class, "point/") || strings.HasPrefix(sh.class, "multipoint/") || strings.Contains(sh.class, "line/") {
+		if !sameTiles(sortedTiles(third, false), sortedTiles(was, false)) {
+			t.Violate("cover-repeatable", "tilecover.Geometry", "", "%s at zoom %d: after the caller emptied earlier results the same geometry is covered by %v, at first by %v", sh.class, z, head(sortedTiles(third, false), 20), head(sortedTiles(was, false), 20))
+		}
+	} else {
+		// area classes may legitimately differ in optional tiles: the later cover is judged by the same oracles
+		verify(third)
+	}
 }
 
 func bucket(n int) int {
